@@ -4,6 +4,9 @@ from vlib import tree as T
 from vlib.rulelib import *
 from vlib.engine import Broken, line_path
 
+# helpers that are steps of their own in the cursor-lifetime argument (kept as functions)
+STEPS = ("rb_truncate", "rb_free_extent", "rb_insert_extent", "rb_remove_extent", "rb_get_new_extent")
+
 EXPLANATION = (
     "Set semantics of extent merge/split is behaviour over histories and is NOT decided.  Decided: (a) in gen_bitmap64.c every "
     "dispatcher that takes block numbers converts them to cluster units before the backend slot call (single-bit entries shift "
